@@ -129,12 +129,14 @@ def load(file):
     the same file by repeatedly calling this function.
     
     """
+    pos = file.tell()
     ar = pickle.load(file)
     
     # Pickle may return a new-style Archive when unpickling a file 
     # containing the old-style class (pickle takes any Archive definition). 
     if hasattr(ar,"_tagged"):
-        file.seek(0)
+        # read this archive again (not the file from its start) with the old classes
+        file.seek(pos)
         
         old = archive_old.load(file)
         old._dump = False
